@@ -144,6 +144,23 @@ def r1_action(ctx, prog, cg, summ, drop, rule='R1', silence_only=False):
                '%s runs before the filter chain is consulted and can emit (e.g. error records while formatting), so a '
                'dropped call is not silent' % (render(early[0]) if early else ''),
                how='no may-emit element precedes the chain check on a path that reaches it')
+    # the configuration is read anew for every call, before the chain is consulted: nothing on that way may emit
+    # either (a complaint about the configuration, raised while loading it, would accompany every dropped call)
+    CT = prog.func('snoopy_configuration_ctor')
+    if CT is not None and filtering:
+        loud = []
+        reach_ct = cg.reachable([CT])
+        for key, (g, _, _) in sorted(reach_ct.items(), key=lambda kv: str(kv[0])):
+            for c_ in g.calls():
+                if c_.get('callee') in emit_names:
+                    loud.append((g, c_))
+        chk.ob(R1, 'configuration-is-loaded-silently', not loud, loud[0][1].where() if loud else CT.where(),
+               loud[0][0].name if loud else CT.name,
+               'while the configuration is being loaded %s calls %s: that happens for every call before the filter chain is '
+               'consulted, so a call the chain drops is not silent' % (
+                   loud[0][0].name if loud else '', render(loud[0][1])[:60] if loud else ''),
+               how='none of the %d functions reachable from %s calls an emission API, the dispatcher or the error handler' % (
+                   len(reach_ct), CT.name))
     if silence_only:
         return
     # exactly one dispatch on every non-drop path
